@@ -1,4 +1,5 @@
 import Casket.Proofs.Gzip
+import Casket.Proofs.Middleware
 import Casket.Generated.Gzip
 /-
 C18 — Compression never changes what the client decodes.
@@ -225,6 +226,22 @@ theorem C18_range_model_verdict_ok (blocks : List Block) (path ae : Bytes) (sibl
       intro heq; rw [← heq] at h4; revert h4; decide
     rw [hp]
     simp [rangeVerdict, observe, h1, h3, h5, hcl, hoff, hae, h4, hne]
+
+/-- The pooled gzip writers (server-state model of Casket/Model/Middleware.lean, shared with C12):
+whatever requests were served — handlers that wrote through the compressing writer and then
+returned an error status or panicked included — every writer is in the pool of its level at most
+once, so `sync.Pool` (trusted) never hands one writer to two requests that are in flight together
+and every response is compressed by a writer of its own.  A second `Put` of the same writer breaks
+this invariant; the stream c18.pool looks for its consequence (overlapping responses that do not
+decode to their own bodies). -/
+theorem C18_pool_objects_unique (c : Casket.Mw.Cfg) (reqs : List (Casket.Mw.Req × Nat × Casket.Mw.Inner))
+    (st : Casket.Mw.ServerState) (h : Casket.Mw.poolsSound st) :
+    ((reqs.foldl (fun st q => (Casket.Mw.serveSt true c q.1 q.2.1 q.2.2 st).2) st).gzPool.map (·.id)).Nodup := by
+  have hs : Casket.Mw.poolsSound (reqs.foldl (fun st q => (Casket.Mw.serveSt true c q.1 q.2.1 q.2.2 st).2) st) := by
+    induction reqs generalizing st with
+    | nil => exact h
+    | cons q qs ih => exact ih _ (Casket.Mw.poolsSound_step c q.1 q.2.1 q.2.2 st h)
+  exact (List.nodup_append.mp hs.1).1
 
 /-- The tables the decision depends on are the ones in the source (regenerated on every run):
 the static encodings and their order, the Content-Encoding values the skip filter lets through
